@@ -123,6 +123,8 @@ NEST = [
 ]
 
 
+CLI_NESTS = ("top-level", "function-body", "module-body", "format-expression", "callback-function-called-by-map")
+
 # expression-level nesting for the thorough tier: the fault sits two constructs deep
 EXPR_NEST = [
     ("in-tuple-field", "{\n        kk = @F@,\n        zz = 2,\n    }.kk"),
@@ -224,12 +226,24 @@ def work(chunk):
     evals = 0
     for desc, stmts, fi, ci in chunk:
         callee = CALLEE.get(desc[0].split("<-")[0])
-        for route in ("eval", "build"):
+        routes = ("eval", "build")
+        if desc[2] == 1 and desc[1] in CLI_NESTS:
+            routes = ("eval", "build", "cli")       # what the real `ucg build` prints, for a sample of the nesting positions
+        for route in routes:
             base_pos = None
             for vname, vst, vfi, vci, shift in variants(stmts, fi, ci):
+                if route == "cli" and vname not in ("base", "before-2", "after-1"):
+                    continue
                 src, spans = assemble(vst)
                 if route == "eval":
                     rs = srv.req({"op": "eval", "src": src})
+                elif route == "cli":
+                    p = os.path.join(d, "e%d_%d.ucg" % (os.getpid(), next(_cnt)))
+                    with open(p, "w") as f:
+                        f.write(src)
+                    rc, out, err = core.run_ucg(["build", p], cwd=d, env={"HOME": d})
+                    os.unlink(p)
+                    rs = {"err": err.decode("utf-8", "replace")} if rc == 1 else ({"ok": None} if rc == 0 else {"crash": rc, "stderr": err.decode("utf-8", "replace")[-300:]})
                 else:
                     p = os.path.join(d, "e%d_%d.ucg" % (os.getpid(), next(_cnt)))
                     with open(p, "w") as f:
@@ -281,12 +295,12 @@ def run(ctx):
     thorough = ctx.tier == "thorough"
     cs = list(gen_cases(thorough))
     ctx.bounds = {"fault_kinds": len(FAULTS), "nesting_positions": len(NEST) * (1 + (len(EXPR_NEST) if thorough else 0)), "statement_indices": (4 if thorough else 3) + 1, "variants": 7,
-                  "routes": ["eval_string", "build(path)"]}
+                  "routes": ["eval_string", "build(path)", "ucg build (5 nesting positions, statement index 1)"]}
     ctx.rule = ("%d fault kinds (3 syntax, unknown name, type mismatch, missing field, missing index, unhandled select, failed cast, fail, wrong "
                 "arity; and 13 consumers that fault on a string x 11 ways of producing that string) x %d nesting positions (top level, tuple field, list element, call argument, select arm / default, copy field, map "
                 "callback, format argument, right operand on a continuation line, function body called and module body instantiated from a "
                 "later statement) x every statement index of a base program of multi-line statements x {base, 1 one-line / 1 three-line / 3 "
-                "one-line unrelated statements inserted before and, separately, after} x {eval_string, build(path)}. All programs distinct; "
+                "one-line unrelated statements inserted before and, separately, after} x {eval_string, build(path)}; for five nesting positions at statement index 1 also what the real `ucg build` prints. All programs distinct; "
                 "non-trivial = a diagnostic was produced and judged." % (len(FAULTS), len(NEST))
                 + (" Thorough: each nesting position once more with the fault one construct deeper (9 expression-level positions inside it)." if thorough else ""))
     viol = []
